@@ -303,7 +303,8 @@ def run_e2e(ctx, rng, png):
     prs = Presentation(b)
     ids0 = [s.slide_id for s in prs.slides]
     texts = {}
-    for _ in range(rng.randint(2, 10)):
+    links = {}
+    for _ in range(rng.randint(2, 14)):
         r = rng.random()
         slides = list(prs.slides)
         s = rng.choice(slides)
@@ -320,9 +321,27 @@ def run_e2e(ctx, rng, png):
         elif r < 0.75:
             _ = s.notes_slide
         elif r < 0.9:
-            tb = s.shapes.add_textbox(0, 0, 5, 5)
-            run = tb.text_frame.paragraphs[0].add_run(); run.text = "link"
-            run.hyperlink.address = "http://h.example/%d" % rng.randint(0, 3)
+            # hyperlinks from a small URL pool, so that several runs of one slide share a relationship;
+            # set / re-point / clear, then every run tracked so far must still report its own address
+            x = rng.random()
+            mine = [k for k in links if k[0] is s.part]
+            if mine and x < 0.45:
+                k = rng.choice(mine)
+                new = rng.choice([None, "http://h.example/%d" % rng.randint(0, 2)])
+                k[1].hyperlink.address = new
+                links[k] = new
+                ctx.count("e2e-hyperlink-" + ("clear" if new is None else "repoint"))
+            else:
+                tb = s.shapes.add_textbox(0, 0, 5, 5)
+                run = tb.text_frame.paragraphs[0].add_run(); run.text = "link"
+                url = "http://h.example/%d" % rng.randint(0, 2)
+                run.hyperlink.address = url
+                links[(s.part, run)] = url
+                ctx.count("e2e-hyperlink-set")
+            for (part, run), want in links.items():
+                if run.hyperlink.address != want:
+                    ctx.fail("rid-reassigned-while-in-use", f"a run linked to {want!r} now reports {run.hyperlink.address!r} after another run's hyperlink changed",
+                             {"kind": "e2e", "what": "hyperlink"})
         else:
             g = s.shapes.add_group_shape(); g.shapes.add_textbox(0, 0, 3, 3)
     ctx.count("e2e")
@@ -360,6 +379,64 @@ def run_e2e(ctx, rng, png):
             ctx.fail("lookup-by-id-unstable", f"shape {shid} on slide {sid} no longer designates text {t!r}", {"kind": "e2e"})
 
 
+def run_links(ctx, rng):
+    """relationship ids are not reassigned while in use: runs and shapes of one slide linked to URLs from a small
+    pool (so relationships are shared), then set / re-point / clear in seeded order"""
+    from pptx import Presentation
+
+    prs = Presentation()
+    slide = prs.slides.add_slide(prs.slide_layouts[6])
+    other = prs.slides.add_slide(prs.slide_layouts[6])
+    links, hist = [], []
+    pool = ["http://h.example/%d" % i for i in range(3)]
+    for _ in range(rng.randint(4, 14)):
+        x = rng.random()
+        if links and x < 0.5:
+            k = rng.choice(links)
+            new = rng.choice([None] + pool)
+            kind, obj = k[0], k[1]
+            if kind == "run":
+                obj.hyperlink.address = new
+            else:
+                if new is None:
+                    obj.click_action.hyperlink.address = None
+                elif rng.random() < 0.3:
+                    obj.click_action.target_slide = other
+                    new = ("slide", other.slide_id)
+                else:
+                    obj.click_action.hyperlink.address = new
+            k[2] = new
+            hist.append(("change", kind, new))
+        else:
+            tb = slide.shapes.add_textbox(0, 0, 5, 5)
+            url = rng.choice(pool)
+            if x < 0.8:
+                run = tb.text_frame.paragraphs[0].add_run(); run.text = "l"
+                run.hyperlink.address = url
+                links.append(["run", run, url])
+                hist.append(("new-run", url))
+            else:
+                tb.click_action.hyperlink.address = url
+                links.append(["shape", tb, url])
+                hist.append(("new-shape", url))
+        for kind, obj, want in links:
+            try:
+                if kind == "run":
+                    got = obj.hyperlink.address
+                elif isinstance(want, tuple):
+                    ts = obj.click_action.target_slide
+                    got = ("slide", ts.slide_id) if ts is not None else None
+                else:
+                    got = obj.click_action.hyperlink.address
+            except KeyError as e:
+                got = "KeyError(%s)" % e
+            if got != want:
+                ctx.fail("rid-reassigned-while-in-use", f"a {kind} linked to {want!r} now reports {got!r} after history {hist}",
+                         {"kind": "links", "hist": [str(h) for h in hist]})
+                return
+    ctx.count("link-histories"); ctx.count("link-ops", len(hist))
+
+
 # ------------------------------------------------------------------------------------------
 
 
@@ -387,6 +464,9 @@ def correspond(ctx):
     for _ in range(40 if ctx.quick else 500):
         run_e2e(ctx, rng, png)
         ctx.case(key=("e2e", ctx.evaluations))
+    for _ in range(150 if ctx.quick else 2500):
+        run_links(ctx, rng)
+        ctx.case(key=("links", ctx.evaluations))
     lines = [t[0] for t in triples]
     for l in lines:
         ctx.case(key=l)
